@@ -8,6 +8,8 @@ import (
 	"os/exec"
 	"path/filepath"
 	"sort"
+
+	"golang.org/x/tools/go/ssa"
 	"strconv"
 	"strings"
 	"time"
@@ -28,6 +30,7 @@ type Suite struct {
 	Lemmas     []string
 	MinObls    int
 	Unverified []string
+	Callers    []callersRule
 	Assumes    []string
 	Bounded    []string
 }
@@ -73,6 +76,19 @@ func loadSuite(id string) (*Suite, error) {
 			s.Lemmas = append(s.Lemmas, strings.Fields(rest)...)
 		case "unverified":
 			s.Unverified = append(s.Unverified, rest)
+		case "callers":
+			// callers [label] <pkg> <callee-glob> only <func-glob>...
+			parts := strings.Fields(rest)
+			cr := callersRule{}
+			if len(parts) > 0 && strings.HasPrefix(parts[0], "[") {
+				cr.Label = strings.Trim(parts[0], "[]")
+				parts = parts[1:]
+			}
+			if len(parts) < 3 || parts[2] != "only" {
+				return nil, fmt.Errorf("%s: callers [label] <pkg> <callee-glob> only <func-glob>...", line)
+			}
+			cr.Pkg, cr.Callee, cr.Allowed = parts[0], parts[1], parts[3:]
+			s.Callers = append(s.Callers, cr)
 		case "assume":
 			s.Assumes = append(s.Assumes, rest)
 		case "bounded":
@@ -82,6 +98,63 @@ func loadSuite(id string) (*Suite, error) {
 		}
 	}
 	return s, nil
+}
+
+// callersRule is a frame condition on the call graph of one package: every reference to a function matching
+// Callee (call, go, defer or function value) inside package Pkg sits in a function matching one of Allowed.
+type callersRule struct {
+	Label, Pkg, Callee string
+	Allowed            []string
+}
+
+// checkCallers scans the SSA of every function of the package. It returns the number of references found and
+// the offending ones.
+func checkCallers(P *Program, cr callersRule) (int, []string) {
+	var bad []string
+	n := 0
+	keys := []string{}
+	for k := range P.funcs {
+		if strings.HasPrefix(k, cr.Pkg+".") {
+			keys = append(keys, k)
+		}
+	}
+	sort.Strings(keys)
+	for _, k := range keys {
+		f := P.funcs[k]
+		top := k
+		if i := strings.Index(top, "$"); i >= 0 {
+			top = top[:i]
+		}
+		for _, b := range f.Blocks {
+			for _, ins := range b.Instrs {
+				var ops []*ssa.Value
+				for _, op := range ins.Operands(ops) {
+					if op == nil || *op == nil {
+						continue
+					}
+					fn, ok := (*op).(*ssa.Function)
+					if !ok {
+						continue
+					}
+					ck := P.funcKey(fn)
+					if ck == "" || !globKey(cr.Callee, ck) {
+						continue
+					}
+					n++
+					ok = false
+					for _, a := range cr.Allowed {
+						if globKey(a, top) {
+							ok = true
+						}
+					}
+					if !ok {
+						bad = append(bad, fmt.Sprintf("%s references %s at %s", k, ck, P.SSA.Fset.Position(ins.Pos())))
+					}
+				}
+			}
+		}
+	}
+	return n, bad
 }
 
 func globMatch(pat, s string) bool {
@@ -353,6 +426,18 @@ func mainCheck(args []string) int {
 			axioms[k] = true
 		}
 	}
+	var callerObls []*Obligation
+	for _, cr := range suite.Callers {
+		n, bad := checkCallers(P, cr)
+		o := &Obligation{Name: cr.Pkg + ".*#callers:" + cr.Label, Kind: "callers", Label: cr.Label, Result: "unsat", Solver: "ssa-reference-scan",
+			Src: fmt.Sprintf("every reference to %s in package %s is inside %s (%d references found)", cr.Callee, cr.Pkg, strings.Join(cr.Allowed, ", "), n)}
+		if len(bad) > 0 {
+			o.Result, o.Output = "violated", strings.Join(bad, "\n")
+		} else if n == 0 && !(len(cr.Allowed) == 1 && cr.Allowed[0] == "-") {
+			o.Result, o.Output = "not-regenerable", "no reference to "+cr.Callee+" found in package "+cr.Pkg+": the rule is vacuous"
+		}
+		callerObls = append(callerObls, o)
+	}
 	opts := solveOpts{timeoutS: 10, seed: seed}
 	if tier == "thorough" {
 		opts.timeoutS = 60
@@ -393,6 +478,15 @@ func mainCheck(args []string) int {
 		total++
 		evObls = append(evObls, evidenceObl{Name: o.Name, Result: o.Result, Clause: o.Output})
 		report(o, "not-regenerable: "+o.Output)
+	}
+	for _, o := range callerObls {
+		total++
+		evObls = append(evObls, evidenceObl{Name: o.Name, Result: o.Result, Solver: o.Solver, Clause: o.Src})
+		if o.Result == "unsat" {
+			discharged++
+		} else {
+			report(o, "call-graph frame condition: "+o.Output)
+		}
 	}
 	for _, it := range items {
 		o := it.o
